@@ -3,25 +3,29 @@
 package http
 
 // C07 for HTTP/1: the real serverStreamConnection (newServerStreamConnection,
-// its serve goroutine reading through the bufChan/endRead hand-off) fed by
-// Dispatch(buf) from one persistent read buffer filled like
+// its serve goroutine reading through the bufChan/endRead hand-off) fed by the
+// real Dispatch(buf) from one persistent read buffer filled like
 // network.connection.doRead.
 //
-// The serve goroutine is a real goroutine. The result must not depend on timing:
-// serve() handles requests strictly one after the other and waits for each
-// response before it reads on, so the scripted listener answers every request
-// at once (200, in the serve goroutine) and records (method, path, headers,
-// body) by value. The harness waits after every read until the number of
-// recorded requests reaches the number of requests whose last byte has been
-// fed; a generous timeout there is reported as a HARNESS error, never as a
-// violation (no wall-clock oracle). Every script ends with a sentinel request,
-// so at the end "sentinel recorded" is a deterministic barrier: everything
-// before it has been handed up.
+// The serve goroutine is a real goroutine, but the observation points are not
+// timing dependent: serve() handles requests strictly one after the other and
+// waits for each response before it reads on (the scripted listener answers
+// every request at once with a 200, inside the serve goroutine, and records
+// method, path, headers, body by value). The serve goroutine takes bytes from
+// Dispatch only when it is back in streamConnection.Read, i.e. when it has
+// completely processed everything it was given before. The read buffer is handed
+// to Dispatch through a transparent delegate whose Bytes() - called by Read at
+// that very hand-off, in the serve goroutine - snapshots the number of requests
+// recorded so far. So "requests handed up after read k" is observed exactly,
+// at the hand-off of read k+1; after the last read of the stream one more read
+// delivers the single byte "G" (a client starting its next request) to obtain
+// the final observation. No polling, no sleeps; the only clock is a generous
+// timeout on Dispatch itself, which yields a HARNESS error, never a violation.
 //
-// Oracle: after every read the recorded requests are exactly the requests
-// whose last byte has arrived - in order, each once, method/path/body/mark as
-// sent, all headers as under whole delivery; a request is never handed up
-// before its last byte was fed; the connection is not closed and no error
+// Oracle: at every hand-off the recorded requests are exactly the requests
+// whose last byte had been fed before - in order, each once, method/path/body/
+// mark as sent, all headers as under whole delivery; a request is never handed
+// up before its last byte was fed; the connection is not closed and no error
 // response is written. Dispatch always moves the whole read buffer into the
 // connection's own bufio.Reader, so "the unconsumed buffer is the unparsed
 // suffix" has no meaning at this seam and is not compared.
@@ -31,8 +35,6 @@ import (
 	"encoding/hex"
 	"fmt"
 	"net"
-	"os"
-	"runtime"
 	"reflect"
 	"sort"
 	"strings"
@@ -87,17 +89,33 @@ func (c *c07H1Conn) Close(t api.ConnectionCloseType, e api.ConnectionEvent) erro
 	c.closed = append(c.closed, string(e))
 	return nil
 }
+func (c *c07H1Conn) closedEvents() ([]string, []byte) {
+	c.mu.Lock()
+	defer c.mu.Unlock()
+	var last []byte
+	if n := len(c.writes); n > 0 {
+		last = c.writes[n-1]
+	}
+	return append([]string(nil), c.closed...), last
+}
 
 type c07H1Handed struct {
 	Method, Path, Mark, Hdr, Body string
 	FedAtHandUp                   int
 }
 
+// c07H1Obs: taken in the serve goroutine at a hand-off (streamConnection.Read just received the buffer)
+type c07H1Obs struct {
+	fedBefore int // bytes fed by the reads before the one being handed over
+	count     int // requests recorded so far
+}
+
 type c07H1Listener struct {
-	mu     sync.Mutex
-	handed []c07H1Handed
-	fed    int // bytes fed so far (written by the feeding goroutine under mu)
-	signal chan struct{}
+	mu        sync.Mutex
+	handed    []c07H1Handed
+	fed       int // bytes fed so far, including the read being dispatched
+	fedBefore int // bytes fed by the earlier reads
+	obs       []c07H1Obs
 }
 
 type c07H1Receiver struct {
@@ -131,10 +149,6 @@ func (r *c07H1Receiver) OnReceive(ctx context.Context, headers api.HeaderMap, da
 	resp := mosnhttp.ResponseHeader{ResponseHeader: &fasthttp.ResponseHeader{}}
 	resp.SetStatusCode(200)
 	r.sender.AppendHeaders(ctx, resp, true)
-	select {
-	case r.l.signal <- struct{}{}:
-	default:
-	}
 }
 func (r *c07H1Receiver) OnDecodeError(ctx context.Context, err error, headers api.HeaderMap) {
 	r.l.mu.Lock()
@@ -145,6 +159,21 @@ func (l *c07H1Listener) NewStreamDetect(ctx context.Context, sender types.Stream
 	return &c07H1Receiver{l: l, sender: sender}
 }
 func (l *c07H1Listener) OnGoAway() {}
+
+// c07H1Buf is the read buffer as Dispatch / Read see it: a transparent delegate.
+// Bytes() is what streamConnection.Read calls first after it received the buffer
+// over bufChan - in the serve goroutine, which is therefore done with all earlier bytes.
+type c07H1Buf struct {
+	buffer.IoBuffer
+	l *c07H1Listener
+}
+
+func (b *c07H1Buf) Bytes() []byte {
+	b.l.mu.Lock()
+	b.l.obs = append(b.l.obs, c07H1Obs{fedBefore: b.l.fedBefore, count: len(b.l.handed)})
+	b.l.mu.Unlock()
+	return b.IoBuffer.Bytes()
+}
 
 type c07H1Case struct {
 	Script string `json:"script"`
@@ -167,7 +196,7 @@ type c07H1Result struct {
 	handed               []c07H1Handed
 }
 
-const c07H1Timeout = 20 * time.Second
+const c07H1Timeout = 30 * time.Second
 
 // set after the first timing-related harness error: the remaining cases are not run (each would wait again)
 var c07H1Dead bool
@@ -180,117 +209,78 @@ func c07H1Exec(s *c07frames.H1Script, c c07H1Case) (res c07H1Result) {
 		}
 	}
 	conn := &c07H1Conn{}
-	lis := &c07H1Listener{signal: make(chan struct{}, 1)}
+	lis := &c07H1Listener{}
 	sc := newServerStreamConnection(c07frames.Ctx(), conn, lis).(*serverStreamConnection)
 	// end the serve goroutine when the case is over (connection close event, as network.connection delivers it)
 	defer sc.OnEvent(api.LocalClose)
 	stream := s.Bytes
-	fed := 0
-	var buf buffer.IoBuffer
-	snapshot := func() []c07H1Handed {
-		lis.mu.Lock()
-		defer lis.mu.Unlock()
-		return append([]c07H1Handed(nil), lis.handed...)
+	wantAt := func(fed int) int {
+		w := 0
+		for w < len(s.Reqs) && s.Reqs[w].End <= fed {
+			w++
+		}
+		return w
 	}
-	check := func() bool {
-		// Dispatch blocks until the serve goroutine has taken every byte
+	var buf buffer.IoBuffer
+	obsSeen := 0
+	// dispatch hands the current content of buf to the real Dispatch and then checks the observation(s) taken at the hand-off
+	dispatch := func(newFed int) bool {
+		lis.mu.Lock()
+		lis.fedBefore = lis.fed
+		lis.fed = newFed
+		fedBefore := lis.fedBefore
+		lis.mu.Unlock()
 		done := make(chan struct{})
 		go func() {
 			defer close(done)
 			if buf.Len() > 0 {
-				sc.Dispatch(buf)
+				sc.Dispatch(&c07H1Buf{IoBuffer: buf, l: lis})
 			}
 		}()
-		dispatchDeadline := time.Now().Add(c07H1Timeout)
-	waitDispatch:
+		deadline := time.Now().Add(c07H1Timeout)
+		tick := time.NewTicker(2 * time.Millisecond)
+		defer tick.Stop()
+	wait:
 		for {
 			select {
 			case <-done:
-				break waitDispatch
-			case <-time.After(time.Millisecond):
+				break wait
+			case <-tick.C:
 			}
-			// serve() may have given up on the earlier bytes meanwhile (error response + close): then nobody reads any more
-			conn.mu.Lock()
-			closed := append([]string(nil), conn.closed...)
-			conn.mu.Unlock()
-			if len(closed) > 0 {
-				failf("connection closed on a valid stream", "%d bytes fed, Dispatch blocked: %v", fed, closed)
+			// serve() gives up on a stream it cannot parse: error response, close, return - then nobody takes bytes any more
+			if closed, last := conn.closedEvents(); len(closed) > 0 {
+				failf("connection closed on a valid stream", "%d bytes fed, Dispatch of the next read blocks: %v, last write %q", fedBefore, closed, last)
 				return false
-			}
-			if time.Now().After(dispatchDeadline) {
-				stk := make([]byte, 1<<16)
-				stk = stk[:runtime.Stack(stk, true)]
-				os.WriteFile("/tmp/C07-h1-stacks.txt", stk, 0644)
-				res.harness = fmt.Sprintf("Dispatch did not return within %v after %d bytes", c07H1Timeout, fed)
-				return false
-			}
-		}
-		want := 0
-		for want < len(s.Reqs) && s.Reqs[want].End <= fed {
-			want++
-		}
-		deadline := time.Now().Add(c07H1Timeout)
-		var got []c07H1Handed
-		for {
-			got = snapshot()
-			if len(got) >= want {
-				break
-			}
-			// serve() closes the connection (after an error response) when it cannot parse the stream, and ends
-			conn.mu.Lock()
-			nclosed := len(conn.closed)
-			conn.mu.Unlock()
-			if nclosed > 0 {
-				break
-			}
-			// Is the serve goroutine idle, i.e. blocked in Read waiting for more bytes? Only then a
-			// non-blocking send on bufChan succeeds. serve() is sequential, so when it is back in Read
-			// every byte handed over so far has been processed: a complete request that is still
-			// missing will never come. (The empty probe buffer makes Read return 0 bytes; the case is
-			// over after a successful probe, so the perturbation cannot influence a verdict.)
-			probed := false
-			select {
-			case sc.bufChan <- buffer.NewIoBuffer(0):
-				<-sc.endRead
-				probed = true
-			default:
-			}
-			if probed {
-				if got = snapshot(); len(got) < want {
-					failf("complete request is never handed up (server waits for more bytes)",
-						"%d bytes fed = %d complete requests, %d handed up, serve goroutine is idle in Read: %+v", fed, want, len(got), got)
-					return false
-				}
-				break
-			}
-			select {
-			case <-lis.signal:
-			case <-time.After(200 * time.Microsecond):
 			}
 			if time.Now().After(deadline) {
-				res.harness = fmt.Sprintf("only %d of %d completed requests were handed up within %v after %d bytes and the serve goroutine is not idle (no verdict: timing)", len(got), want, c07H1Timeout, fed)
+				res.harness = fmt.Sprintf("Dispatch did not return within %v (%d bytes fed before, %d with this read): no verdict", c07H1Timeout, fedBefore, newFed)
 				return false
 			}
 		}
-		res.perFeed = append(res.perFeed, len(got))
-		conn.mu.Lock()
-		closed := append([]string(nil), conn.closed...)
-		nwrites := len(conn.writes)
-		var lastWrite []byte
-		if nwrites > 0 {
-			lastWrite = conn.writes[nwrites-1]
-		}
-		conn.mu.Unlock()
-		if len(closed) > 0 {
-			failf("connection closed on a valid stream", "%d bytes fed: %v, last write %q", fed, closed, lastWrite)
+		lis.mu.Lock()
+		obs := append([]c07H1Obs(nil), lis.obs[obsSeen:]...)
+		obsSeen = len(lis.obs)
+		got := append([]c07H1Handed(nil), lis.handed...)
+		lis.mu.Unlock()
+		if len(obs) == 0 {
+			res.harness = "Dispatch returned without a hand-off"
 			return false
 		}
-		if len(got) != want {
-			failf("requests handed up differ from the requests completed", "%d bytes fed = %d complete requests, handed up %d: %+v", fed, want, len(got), got)
+		// first hand-off of this read: the serve goroutine had finished with all earlier reads
+		first := obs[0]
+		want := wantAt(first.fedBefore)
+		res.perFeed = append(res.perFeed, first.count)
+		if first.count < want {
+			failf("complete request is never handed up (server waits for more bytes)",
+				"%d bytes fed = %d complete requests, but only %d handed up when the server took the next read: %+v", first.fedBefore, want, first.count, got)
 			return false
 		}
-		for i, h := range got {
-			r := s.Reqs[i]
+		if first.count > want {
+			failf("more requests handed up than were completed", "%d bytes fed = %d complete requests, %d handed up: %+v", first.fedBefore, want, first.count, got)
+			return false
+		}
+		for i := 0; i < first.count && i < len(got); i++ {
+			h, r := got[i], s.Reqs[i]
 			body := "<nil>"
 			if r.Body != "" {
 				body = hex.EncodeToString([]byte(r.Body))
@@ -306,17 +296,13 @@ func c07H1Exec(s *c07frames.H1Script, c c07H1Case) (res c07H1Result) {
 		}
 		return true
 	}
-	setFed := func(n int) {
-		lis.mu.Lock()
-		fed = n
-		lis.fed = n
-		lis.mu.Unlock()
-	}
+	fed := 0
+	ok := true
 	if c.Feed == "write" {
 		buf = buffer.GetIoBuffer(len(stream))
 		buf.Write(stream)
-		setFed(len(stream))
-		check()
+		fed = len(stream)
+		ok = dispatch(fed)
 	} else {
 		buf = buffer.GetIoBuffer(network.DefaultReadBufferSize)
 		rd := &c07H1Reader{}
@@ -336,14 +322,24 @@ func c07H1Exec(s *c07frames.H1Script, c c07H1Case) (res c07H1Result) {
 					res.harness = fmt.Sprintf("ReadOnce: n=%d err=%v", n, err)
 					return
 				}
-				setFed(fed + int(n))
-				if !check() {
+				fed += int(n)
+				if ok = dispatch(fed); !ok {
 					break feed
 				}
 			}
 		}
 	}
-	res.handed = snapshot()
+	if ok {
+		// one more read: the client starts its next request ("G"). Its hand-off gives the observation after the whole stream.
+		if _, err := buf.ReadOnce(&c07H1Reader{rest: []byte("G")}); err != nil {
+			res.harness = "ReadOnce(G): " + err.Error()
+			return
+		}
+		dispatch(fed + 1)
+	}
+	lis.mu.Lock()
+	res.handed = append([]c07H1Handed(nil), lis.handed...)
+	lis.mu.Unlock()
 	for i := range res.handed {
 		res.handed[i].FedAtHandUp = 0
 	}
@@ -372,11 +368,10 @@ func TestVerifC07HTTP1Serve(t *testing.T) {
 			whole[s.Name] = res.handed
 		}
 	}
-	maxCuts := 2
 	gen := func(yield func(c07H1Case) bool) {
 		for i := range scripts {
 			s := &scripts[i]
-			mc := maxCuts
+			mc := 2
 			if !vreport.Thorough() && len(s.Reqs) > 2 {
 				mc = 1
 			}
@@ -430,7 +425,7 @@ func TestVerifC07HTTP1Serve(t *testing.T) {
 		p.Distinct(fmt.Sprintf("%s|%s|%v", c.Script, c.Feed, cls))
 		p.Outcome(fmt.Sprintf("%s|%v", c.Script, res.perFeed))
 		if p.WantSample() {
-			p.Sample(map[string]interface{}{"case": c, "requests_after_each_read": res.perFeed})
+			p.Sample(map[string]interface{}{"case": c, "requests_seen_at_each_hand_off": res.perFeed})
 		}
 		if res.key != "" {
 			p.Violation(res.key, res.detail, c)
@@ -443,6 +438,6 @@ func TestVerifC07HTTP1Serve(t *testing.T) {
 	if c07H1Dead {
 		complete = false
 	}
-	p.End(complete, "5 keep-alive client streams (GET; POST with Content-Length; POST chunked with two chunks; POST then GET; chunked POST then POST), each followed by a sentinel GET, 127-270 bytes; 2-request streams: every segmentation with 0,1,2 cuts; 3-request streams: 0,1 cuts in the quick tier, 0,1,2 in the thorough tier; always the all-single-bytes segmentation and whole delivery as initial buffer",
-		"case = (script, cut list); distinct = script + for each cut the request it falls in and whether at its boundary / in the header block / in the body; outcome = requests handed up after each read. The serve goroutine is real; the harness waits (timeout = harness error, no verdict) for the requests whose last byte was fed. The read buffer is always emptied by Dispatch (bytes move into the connection's bufio.Reader), so the buffer-suffix oracle is not applied here.")
+	p.End(complete, "5 keep-alive client streams (GET; POST with Content-Length; POST chunked with two chunks; POST then GET; chunked POST then POST), each followed by a sentinel GET, 108-254 bytes; 2-request streams: every segmentation with 0,1,2 cuts; 3-request streams: 0,1 cuts in the quick tier, 0,1,2 in the thorough tier; always the all-single-bytes segmentation and whole delivery as initial buffer",
+		"case = (script, cut list); distinct = script + for each cut the request it falls in and whether at its boundary / in the header block / in the body; outcome = requests recorded at each hand-off. The serve goroutine is real; observations are taken inside streamConnection.Read at the hand-off of the next read (the server is then done with all earlier bytes), the final one at the hand-off of an extra one-byte read. The read buffer is always emptied by Dispatch (bytes move into the connection's bufio.Reader), so the buffer-suffix oracle is not applied here.")
 }
